@@ -126,6 +126,28 @@ Proof.
 Qed.
 Print Assumptions C02_source_pair_global_invariant.
 
+(* the distance based measures: the code's use of D = path_lengths() + Id
+   (entries overwritten where inf, 1 / D, 2 ** (-D), x / (D.w)) as terms over
+   the model's bounded reachability *)
+Theorem C02_source_distance_denote B : all_denote Ptrue (source_distance B).
+Proof. exact (source_distance_denote B). Qed.
+Print Assumptions C02_source_distance_denote.
+
+Theorem C02_source_distance_global G B :
+  sden G (gen_nsi_average_path_length B) = eval G [] (nsi_average_path_length B) /\
+  sden G (gen_nsi_global_efficiency B) = eval G [] (nsi_global_efficiency B).
+Proof.
+  split; [exact (gen_nsi_average_path_length_denotes G B)
+         | exact (gen_nsi_global_efficiency_denotes G B)].
+Qed.
+Print Assumptions C02_source_distance_global.
+
+Theorem C02_source_distance_global_invariant G' G phi B : pullback G' G phi ->
+  sden G' (gen_nsi_average_path_length B) = sden G (gen_nsi_average_path_length B) /\
+  sden G' (gen_nsi_global_efficiency B) = sden G (gen_nsi_global_efficiency B).
+Proof. exact (source_distance_global_invariant G' G phi B). Qed.
+Print Assumptions C02_source_distance_global_invariant.
+
 Example C02_source_example :
   let r := raw_of [[false; true; false]; [true; false; true]; [false; true; false]]
                   [1; 1 # 2; 3 # 4]%Q [] [] in
